@@ -198,37 +198,56 @@ CLASSES = collections.OrderedDict([
               "without bound (host RecursionError)"),
     ("fproto_assign", "assignment `F.prototype = obj` is ignored: F.prototype, `new F` and instanceof keep using the "
                       "original prototype object"),
-    ("fproto_delete", "`delete F.prototype.m` / writes through F.prototype do not reach the prototype object"),
     ("getter_shadow", "an inherited getter wins over an own data property of the receiver (getters are searched along "
                       "the whole chain before own properties)"),
     ("getter_only_assign", "assignment to an accessor property without setter does not throw TypeError (strict mode) "
                            "and creates a data property beside the getter"),
-    ("define_over", "Object.defineProperty does not replace an existing property of the other kind (data vs accessor "
-                    "live in separate tables, both survive)"),
+    ("define_over", "Object.defineProperty does not replace an existing property of the other kind (data and accessor "
+                    "tables are separate, the stale entry survives and shows in entries/values/delete)"),
     ("delete_acc", "`delete` does not remove accessor properties"),
-    ("literal_dup", "object literal / Object.create result differs"),
-    ("assign_acc", "Object.assign skips accessor properties of the source (reads no getters) or bypasses setters of "
-                   "the target"),
+    ("assign_acc", "Object.assign skips accessor properties of the source and bypasses setters of the target"),
+    ("delete_missing", "`delete` of a property that does not exist evaluates to false (true specified)"),
     ("in_acc", "`in` is false for an own accessor property"),
     ("in_chain", "`in` ignores the prototype chain (own data properties only)"),
     ("enum_acc", "Object.keys / entries / for-in omit own accessor properties"),
     ("enum_order", "enumeration order of own keys differs"),
     ("null_proto", "objects without prototype (Object.create(null), setPrototypeOf(o, null)) still answer "
                    "`hasOwnProperty` / `toString` lookups with a function"),
-    ("array_proto", "array literals are not linked to Array.prototype / arrays as prototypes"),
+    ("array_proto", "array literals are not linked to Array.prototype (getPrototypeOf([]) is null)"),
     ("base_proto", "the `prototype` object of a function does not inherit from Object.prototype "
                    "(getPrototypeOf(F.prototype) is null)"),
     ("other", "other difference"),
 ])
+UPSTREAM = ("fproto_assign", "cycle", "getter_only_assign", "define_over", "delete_acc", "assign_acc", "getter_shadow")
+OP_CLASS = [
+    ("prototype =", "fproto_assign"),
+    ("Object.assign", "assign_acc"),
+    ("Object.defineProperty", "define_over"),
+    ("delete o", "delete_acc"),
+]
 
 
 def _keys(tok):
     return tok[2:-1].split(".") if tok.startswith('s"') and len(tok) > 3 else []
 
 
+def _target(op):
+    """(object variable, key) a statement writes to / deletes from, when that is evident from its text."""
+    for o in ("o1", "o2", "o3"):
+        for pre in ("delete " + o, o):
+            if op.startswith(pre + ".") and len(op) > len(pre) + 1:
+                return o, op[len(pre) + 1]
+            if op.startswith(pre + "[k]"):
+                return o, "a"
+            if op.startswith(pre + '["'):
+                return o, op[len(pre) + 2]
+    return None, None
+
+
 def witness(h, step_ops, ve, vo):
-    """-> ordered dict class -> (step, pos) of its first witness, for one history."""
-    found = collections.OrderedDict()
+    """-> dict class -> (step, pos) of its first witness; '_down' collects differences that have no local
+    explanation (they are consequences of an earlier transition)."""
+    found = {}
 
     def add(c, s, j):
         if c not in found:
@@ -248,8 +267,19 @@ def witness(h, step_ops, ve, vo):
             elif kind in ("F1p", "F2p", "F1pctor", "nF1proto", "nF2proto") or (
                     kind == "result" and "prototype =" in op):
                 add("fproto_assign", s, j)
-            elif kind == "result" and "setPrototypeOf" in op and "throw:TypeError" in e[j]:
-                add("cycle", s, j)
+            elif kind == "result":
+                tobj, tkey = _target(op)
+                if "setPrototypeOf" in op and "throw:TypeError" in e[j]:
+                    add("cycle", s, j)
+                elif op.startswith("delete") and e[j] == "t" and o[j] == "f":
+                    if tobj and o[IDX[(tobj, "gopd", tkey)]] == 's"acc"' and e[IDX[(tobj, "gopd", tkey)]] == 's"none"':
+                        add("delete_acc", s, j)
+                    else:
+                        add("delete_missing", s, j)
+                elif "throw:TypeError" in e[j] and "throw:" not in o[j] and tobj:
+                    add("getter_only_assign", s, j)
+                else:
+                    add("_down", s, j)
             elif kind == "typeofhop":
                 add("null_proto", s, j)
             elif kind in ("arra", "arrkeys") or "+AP" in e[j] or "+arr" in e[j]:
@@ -263,31 +293,31 @@ def witness(h, step_ops, ve, vo):
                     add("in_chain", s, j)
                 else:
                     add("_down", s, j)
+            elif kind == "read" and e[IDX[(obj, "gopd", key)]] == 's"data"' and o[IDX[(obj, "gopd", key)]] == 's"data"' \
+                    and e[IDX[(obj, "entries", "")]] == o[IDX[(obj, "entries", "")]]:
+                # both sides hold the same own data property, yet the engine reads something else
+                add("getter_shadow", s, j)
             elif kind in ("keys", "forin", "entries"):
                 ke, ko = _keys(e[j]), _keys(o[j])
+                ne, no = ke, ko
                 if kind == "entries":
-                    ke, ko = [x.partition("=")[0] for x in ke], [x.partition("=")[0] for x in ko]
-                missing = [x for x in ke if x not in ko]
-                extra = [x for x in ko if x not in ke]
+                    ne, no = [x.partition("=")[0] for x in ke], [x.partition("=")[0] for x in ko]
+                missing = [x for x in ne if x not in no]
+                extra = [x for x in no if x not in ne]
                 if missing and not extra and all(x in G.KEYS and e[IDX[(obj, "gopd", x)]] == 's"acc"' for x in missing):
                     add("enum_acc", s, j)
-                elif not missing and not extra and ke != ko:
+                elif not missing and not extra and ne != no:
                     add("enum_order", s, j)
+                elif not missing and not extra and kind == "entries" and all(
+                        a == b or e[IDX[(obj, "gopd", a.partition("=")[0])]] == 's"acc"' for a, b in zip(ke, ko)
+                        if a.partition("=")[0] in G.KEYS):
+                    # same keys, the value of an accessor property differs: entries reads a stale data slot
+                    add("define_over", s, j)
                 else:
                     add("_down", s, j)
             else:
                 add("_down", s, j)
     return found
-
-
-OP_CLASS = [
-    ("delete F1.prototype", "fproto_delete"),
-    ("F1.prototype.k", "fproto_delete"),
-    ("F2.prototype.a", "fproto_delete"),
-    ("Object.assign", "assign_acc"),
-    ("Object.defineProperty", "define_over"),
-    ("delete ", "delete_acc"),
-]
 
 
 def diagnose(h, every, exp, obs):
@@ -302,33 +332,17 @@ def diagnose(h, every, exp, obs):
     found = witness(h, ops, ve, vo)
     first = min(found.values()) if found else (0, 0)
     classes = set(found)
-    if "_down" in found:
-        # a difference with no local explanation: attribute it to the statement after which it first shows
-        s, j = found["_down"]
-        op = ops[s]
-        obj, kind, key = POS[j]
-        c = None
-        if "fproto_assign" in found and found["fproto_assign"][0] <= s:
-            c = "fproto_assign"
-        elif "cycle" in found and found["cycle"][0] <= s:
-            c = "cycle"
-        else:
-            e, o = ve[s], vo[s]
-            if kind in ("read", "mthis") and e[IDX[(obj, "gopd", key or "m")]] == 's"data"' and \
-                    o[IDX[(obj, "gopd", key or "m")]] != 's"none"' and every:
-                c = "getter_shadow"
-            if c is None:
-                for pat, cl in OP_CLASS:
-                    if pat in op:
-                        c = cl
-                        break
-            if c is None and kind == "result" and "throw:TypeError" in e[j]:
-                c = "getter_only_assign"
-            if c is None:
-                c = "other"
+    if "_down" in classes:
         classes.discard("_down")
-        classes.add(c)
-        found[c] = min(found.get(c, (s, j)), (s, j))
+        s, j = found["_down"]
+        if not any(c in found and found[c][0] <= s for c in UPSTREAM):
+            # no witnessed upstream defect explains it: attribute it to the kind of statement in the history
+            c = "other"
+            for pat, cl in OP_CLASS:
+                if any(pat in op for op in (h if not every else h[:max(s, 1)])):
+                    c = cl
+                    break
+            classes.add(c)
     for c in CLASSES:
         if c in classes:
             return c, first, classes
@@ -389,22 +403,48 @@ KIND_CLASS = {"declaration": "ordinary function", "expression": "ordinary functi
               "arrow_in_constructor": "arrow function", "bound": "bound function"}
 
 
+CALL_TEXT = {
+    ("this", "arrow function"): "arrow function does not capture `this` lexically (this comes from the call form: "
+                                "receiver, call/apply/bind argument or undefined)",
+    ("arguments", "arrow function"): "arrow function gets an `arguments` object of its own instead of seeing the "
+                                     "enclosing function's (ReferenceError at top level)",
+    ("prototype_property", "arrow function"): "arrow function has a `prototype` object",
+    ("prototype_property", "method shorthand"): "method-shorthand function has a `prototype` object",
+    ("construct", "arrow function"): "`new` on an arrow function constructs an object (TypeError specified)",
+    ("construct", "method shorthand"): "`new` on a method-shorthand function constructs an object (TypeError specified)",
+    ("construct", "bound function"): "`new` on a bound function uses the bound this / does not link the instance to "
+                                     "the target's prototype",
+    ("function_name", "bound function"): "name of a bound function is not \"bound <target name>\"",
+    ("function_name", "ordinary function"): "function name is wrong (anonymous function expression assigned to a "
+                                            "variable gets no name; f.bind(..).name lacks the `bound ` prefix)",
+    ("function_name", "arrow function"): "function name is wrong (arrow assigned to a variable gets no name; "
+                                         "bind lacks the `bound ` prefix)",
+    ("function_name", "method shorthand"): "name of a method-shorthand function / of its bound copy is wrong",
+    ("function_length", "native function"): "native functions have no `length`",
+    ("function_name", "native function"): "native functions have no `name`",
+    ("effect", "native function"): "native method read from an object stays bound to that object: call / apply / "
+                                   "bind / a different receiver do not change its this",
+    ("this", "getter/setter"): "",
+}
+
+
 def call_signature(payload, exp, obs):
     kind, form, probe = payload["kind"], payload["form"], payload["probe"]
     kc = "native function" if kind.startswith("native:") else KIND_CLASS[kind]
     te, to = exp.rpartition("|")[2], obs.rpartition("|")[2]
     if te != to:
         return "call|host|" + kc, "call forms: %s: %s" % (kc, mismatch_kind(exp, obs))
-    le, lo = exp.rpartition("|")[0], obs.rpartition("|")[0]
-    how = ""
-    if "throw:" in le and "throw:" not in lo:
-        how = " (no %s thrown)" % le.split("throw:")[1].split('"')[0]
-    elif "throw:" in lo and "throw:" not in le:
-        how = " (throws %s)" % lo.split("throw:")[1].split('"')[0]
-    fc = {"bind": "bind", "bind_call": "bind", "bind_partial": "bind", "call": "call/apply", "apply": "call/apply",
-          "method": "method call", "computed": "method call"}.get(form, form)
-    return "call|%s|%s|%s%s" % (probe, kc, fc, how), "call forms: probe %s wrong for %s invoked through %s%s" % (
-        probe.replace("_", " "), kc, fc, how)
+    pc = {"this_identity": "this", "this_primitive": "this", "arguments_length": "arguments",
+          "arguments_values": "arguments", "typeof": "effect"}.get(probe, probe)
+    if form == "new" and kc != "native function" and pc not in ("function_name", "function_length", "prototype_property"):
+        pc = "construct"
+    if form == "new" and kc != "native function" and pc in ("function_name", "function_length", "prototype_property"):
+        # these programs also construct; if the post-call probe agrees the difference is in construction
+        le, lo = exp.rpartition("|")[0], obs.rpartition("|")[0]
+        if le.rpartition(",")[2] == lo.rpartition(",")[2]:
+            pc = "construct"
+    text = CALL_TEXT.get((pc, kc)) or "probe `%s` wrong for %s" % (pc.replace("_", " "), kc)
+    return "call|%s|%s" % (pc, kc), "call forms: " + text
 
 
 # ------------------------------------------------------------------ evidence
